@@ -720,6 +720,89 @@ mod h {
     nested_offsets!(c02_k1_nested_offsets_field1, 1);
     nested_offsets!(c02_k1_nested_offsets_field2, 2);
 
+    /// bytes an emitted instruction sequence stores through `to` when it is read as a copy from
+    /// `from`: Copy{size} stores size bytes; Read{tmp, from, ty} followed by Write{to, tmp} stores the
+    /// width of ty. Anything else, or any other operand, is not a copy of the component (None).
+    fn copy_footprint(ins: &[Instruction], to: usize, from: usize) -> Option<u64> {
+        let mut total: u64 = 0;
+        let mut pending: Option<(Var, u64)> = None;
+        for i in ins {
+            match i {
+                Instruction::Copy { to: t, from: f, size } => {
+                    if !is_place(t, to) || !is_place(f, from) || pending.is_some() {
+                        return None;
+                    }
+                    total += *size as u64;
+                }
+                Instruction::Read { to: tmp, from: f, ty } => {
+                    if !is_place(f, from) || pending.is_some() {
+                        return None;
+                    }
+                    pending = Some((tmp.clone(), ty.bytes() as u64));
+                }
+                Instruction::Write { to: t, val } => {
+                    let Some((tmp, n)) = pending.take() else { return None };
+                    if !is_place(t, to) || !matches!(val, Operand::Place(v) if *v == tmp) {
+                        return None;
+                    }
+                    total += n;
+                }
+                _ => return None,
+            }
+        }
+        if pending.is_some() {
+            return None;
+        }
+        Some(total)
+    }
+
+    /// copying an aggregate component copies exactly its bytes, for every size: nothing next to
+    /// it is overwritten and nothing of it is left behind. One harness per small size (sizes up to
+    /// two machine words are where special-casing happens), one for every larger size.
+    fn memcpy_contract(size: u32) {
+        let mut ti = TypeInfo { ty_pool: base_pool() };
+        let r = rt();
+        let mut ctx = LowerCtx { runtime: &r, type_info: &mut ti };
+        let mut l = lowerer(&mut ctx);
+        l.emit_memcpy(Operand::Place(lvar(3)), Operand::Place(lvar(5)), size);
+        let n = l.blocks[0].instructions.len();
+        assert!(n <= 4, "OBL:C02.copy.memcpy_emits_a_short_copy_sequence");
+        let fp = copy_footprint(&l.blocks[0].instructions, 3, 5);
+        assert!(fp == Some(size as u64), "OBL:C02.copy.memcpy_copies_exactly_size_bytes_from_source_to_destination");
+        kani::cover!(true, "COV:C02.copy.reached");
+    }
+    macro_rules! memcpy_size {
+        ($($name:ident = $n:expr),*) => { $(
+    #[kani::proof]
+    #[kani::unwind(34)]
+    fn $name() { memcpy_contract($n); }
+        )* };
+    }
+    memcpy_size!(c02_k4_memcpy_0 = 0, c02_k4_memcpy_1 = 1, c02_k4_memcpy_2 = 2, c02_k4_memcpy_3 = 3, c02_k4_memcpy_4 = 4,
+        c02_k4_memcpy_5 = 5, c02_k4_memcpy_6 = 6, c02_k4_memcpy_7 = 7, c02_k4_memcpy_8 = 8, c02_k4_memcpy_9 = 9,
+        c02_k4_memcpy_10 = 10, c02_k4_memcpy_11 = 11, c02_k4_memcpy_12 = 12, c02_k4_memcpy_13 = 13, c02_k4_memcpy_14 = 14,
+        c02_k4_memcpy_15 = 15, c02_k4_memcpy_16 = 16);
+    #[kani::proof]
+    #[kani::unwind(34)]
+    fn c02_k4_memcpy_larger() {
+        let size: u32 = kani::any();
+        kani::assume(size > 16);
+        memcpy_contract(size);
+    }
+
+    #[kani::proof]
+    #[kani::unwind(34)]
+    fn canary_c02_k4_memcpy() {
+        let mut ti = TypeInfo { ty_pool: base_pool() };
+        let r = rt();
+        let mut ctx = LowerCtx { runtime: &r, type_info: &mut ti };
+        let mut l = lowerer(&mut ctx);
+        let size: u32 = 24;
+        l.emit_memcpy(Operand::Place(lvar(3)), Operand::Place(lvar(5)), size);
+        let fp = copy_footprint(&l.blocks[0].instructions, 3, 5);
+        assert!(fp != Some(size as u64), "CANARY:negated postcondition must fail");
+    }
+
     #[kani::proof]
     #[kani::unwind(34)]
     fn canary_c02_k1_record_offsets() {
